@@ -624,6 +624,13 @@ impl Model {
                 } else if self.on("C05") {
                     if !open {
                         self.count("withdraw_refused_no_claim");
+                    } else if let Some(bo) = bo {
+                        // the other direction: an open request in a received batch can be withdrawn by its owner,
+                        // whoever that is (contract running, the share representable, no host fault)
+                        let own = self.reqs.get(&key).map(|r| r.amount).unwrap_or(0);
+                        if bo.status == "received" && !pre.stopped && own > 0 && prim::mul_div_floor(bo.received, own, bo.total).is_some() && !res.err.contains("sim:") && !res.bank_insufficient() {
+                            v.push(Viol { prop: "C05", what: format!("withdrawal of the open request of {op_sender} ({own} of {}) from received batch {b} refused: {}", bo.total, res.err) });
+                        }
                     }
                 }
             }
